@@ -109,6 +109,8 @@ def run_case(case):
     pre = race or random.Random(case['seed'] ^ 0xC04).random() < 0.2
     holds = [0]
     pre_on = [not race]
+    srng = random.Random(case['seed'] ^ 0x510)
+    slow = (not pre) and srng.random() < 0.2
     if race:
         # dense pre-emption, but only around the end of the first CA's veto window
         sim.at(1.2492, lambda: pre_on.__setitem__(0, True))
@@ -121,6 +123,11 @@ def run_case(case):
             sim.trace_hook = PRE.random_tracer(sim, case['seed'] ^ (0x40 + i), p=pp, holds=hh, counter=holds, max_holds=400, on=pre_on)
             node = W.stack('N%d' % i, rx_thread=True, rx_trace=PRE.random_tracer(sim, case['seed'] ^ (0x80 + i), p=pp, holds=hh, counter=holds, max_holds=400, on=pre_on))
             sim.trace_hook = None
+        elif slow:
+            # a slow interface: every send call of this stack blocks its caller for up to 100 ms after the frame is out (a congested bus,
+            # a blocking driver); the frames of the other CAs arrive meanwhile
+            node = W.stack('N%d' % i, rx_thread=True)
+            node.send_time = srng.choice([0.02, 0.08, (0.0, 0.1)])
         else:
             node = W.stack('N%d' % i)
         nv = (case['names'][i] & ~(1 << 63)) | (case['aac'][i] << 63)
@@ -132,7 +139,7 @@ def run_case(case):
     W.run(20.0)
     j = W.j1939
     ST = j.ControllerApplication.State
-    obs = dict(contested_addresses=0, cannot_claim_checked=0, reclaims_checked=0, zero_latency_cases=1 if zero else 0, claim_frames=0, preempted_cases=1 if pre else 0, preemption_holds=holds[0])
+    obs = dict(contested_addresses=0, cannot_claim_checked=0, reclaims_checked=0, zero_latency_cases=1 if zero else 0, claim_frames=0, preempted_cases=1 if pre else 0, preemption_holds=holds[0], slow_interface_cases=1 if slow else 0, slow_sends=sum(s.slow_sends for s in W.stacks))
     M.m_live(viol, W, layer)
     tag = dict(layer=layer, lat=case['lat'])
     # claims seen on the bus: address -> set of CA indices; cannot-claim frames per CA
